@@ -278,6 +278,14 @@ class Renderer:
             L.append(Line(self.kw(default)))
         befores, mains, afters = [], [], []
         early_access, late_access = [], []
+        for key, word in (("public_names", "public"), ("private_names", "private")):
+            if u.get(key):
+                names = list(u[key])
+                chunks = [names] if not self.flag("access-list-split", 1, 3) else [[n] for n in names]
+                for chunk in chunks:
+                    dcs = " :: " if self.flag("attrstmt-dcolon") else " "
+                    ln = Line(self.kw(word) + dcs + ", ".join(self.gspec(n) for n in chunk))
+                    (early_access if self.flag("access-list-early") else late_access).append(ln)
         for d in u.get("decls", []):
             kind = d["d"]
             if kind == "var":
